@@ -184,7 +184,9 @@ def text_runs(rng, total):
     rs = []
     for i, k in enumerate(ks):
         inner = 0 < i < len(ks) - 1
-        if inner and rs[-1][0] != "S" and rng.random() < 0.4:
+        # (interior blank runs stay short: re_field / re_continuation backtrack quadratically in them --
+        #  64 KiB of blanks inside a value take the real reader ~17 s; a cost, not an outcome)
+        if inner and k <= 255 and rs[-1][0] != "S" and rng.random() < 0.4:
             rs.append(("S", k))
         else:
             rs.append((rng.choice("XXXLLDHCP"), k))
@@ -443,10 +445,14 @@ class LineSource:
         self.i = 0
         self.kind = kind
 
-    def readline(self):
+    def readline(self, size=-1):
         if self.i < len(self.items):
+            ln = self.items[self.i]
+            if size is not None and 0 <= size < len(ln):      # like a real file: at most `size`, the rest next time
+                self.items[self.i] = ln[size:]
+                return ln[:size]
             self.i += 1
-            return self.items[self.i - 1]
+            return ln
         self.i += 1
         return b"" if self.kind == "b" or (self.kind == "m" and self.i % 2) else ""
 
@@ -1123,8 +1129,9 @@ def run(ctx):
         dict(name="files", module="PackageFile", cfg=cfg_text("PackageFile_files.cfg", MaxLines=str(maxlines)), workers=2 if quick else 3,
              tags={"CASE"}),
         dict(name="big", module="PackageFile", cfg="PackageFile_big.cfg", workers=2, tags={"CASE"}, java_opts=["-Xss256m"]),
-        dict(name="big2", module="PackageFile", cfg=cfg_text("PackageFile_big.cfg", BigSel="{13, 14}"), workers=2, tags={"CASE"},
-             java_opts=["-Xss256m"]),
+        # (the file of 65540 lines -- an error beyond line 65536 -- costs TLC 6 s: thorough tier only)
+        dict(name="big2", module="PackageFile", cfg=cfg_text("PackageFile_big.cfg", BigSel="{13}" if quick else "{13, 14}"), workers=2,
+             tags={"CASE"}, java_opts=["-Xss256m"]),
         dict(name="calls", module="PackageFileCalls", cfg="PackageFileCalls.cfg", workers=2, tags={"EDGE", "DOCS"}),
     ]
     if not quick:
